@@ -53,12 +53,14 @@ func (st c11sStep) show() string {
 		return fmt.Sprintf("RESERVE(p%d)", st.C+1)
 	case "connect":
 		return fmt.Sprintf("CONNECT(p%d->p%d)", st.C+1, st.D+1)
-	case "disconnect":
+	case "disconnect", "disconnect-first":
 		return fmt.Sprintf("Disconnect(p%d)", st.C+1)
 	case "endcircuit":
 		return fmt.Sprintf("EndCircuit(#%d)", st.D)
 	case "closerelay":
 		return "Relay.Close"
+	case "reserve-newconn":
+		return fmt.Sprintf("Reconnect+RESERVE(p%d)", st.C+1)
 	}
 	return st.K
 }
@@ -94,6 +96,7 @@ func (sc c11sScn) cfg() *c11Cfg {
 
 type c11sReq struct {
 	step  c11sStep
+	conn2 *c11Conn // reserve-newconn: the new connection
 	hop   *c11Stream
 	rep   c11Reply
 	done  bool
@@ -106,8 +109,9 @@ func c11sBody(sc c11sScn) func(x *vs.Exec) {
 		cfg := sc.cfg()
 		var sy *c11Sys
 		var base *c11Obs
-		var pre []*c11sReq  // prologue requests (circuits that are open when the race starts)
-		var reqs []*c11sReq // racing requests, index = race thread
+		var first []*c11Conn // every client's first connection (what "disconnect" closes)
+		var pre []*c11sReq   // prologue requests (circuits that are open when the race starts)
+		var reqs []*c11sReq  // racing requests, index = race thread
 		heldBefore := map[int]bool{}
 		send := func(rq *c11sReq) {
 			switch rq.step.K {
@@ -152,6 +156,9 @@ func c11sBody(sc c11sScn) func(x *vs.Exec) {
 				}
 			}
 			// the racing requests' hop streams exist (their handlers wait for the request) before anything races
+			for c := range cfg.Clients {
+				first = append(first, sy.conns[c][0])
+			}
 			for _, st := range sc.Race {
 				rq := &c11sReq{step: st}
 				if st.K == "reserve" || st.K == "connect" {
@@ -196,8 +203,26 @@ func c11sBody(sc c11sScn) func(x *vs.Exec) {
 			case "disconnect":
 				s.GoPrio(st.show(), 1, func() {
 					vs.Yield()
-					sy.conns[st.C][0].Close()
+					first[st.C].Close()
 					rq.done = true
+				})
+			case "disconnect-first":
+				// like "disconnect", but part of the default schedule's beginning: the interesting interleavings then
+				// need a single preemption inside the Disconnected handler instead of an early start plus a preemption
+				s.Go(st.show(), func() {
+					first[st.C].Close()
+					rq.done = true
+				})
+			case "reserve-newconn":
+				// the peer comes back over a NEW connection and reserves over it (while its old connection may be closing)
+				s.Go(st.show(), func() {
+					c2 := sy.net.openConn(sy.ids[st.C], sy.addrs[st.C][0], false)
+					rq.conn2 = c2
+					rq.hop = sy.host.inbound(c2, circuitproto.ProtoIDv2Hop)
+					rq.step.K = "reserve"
+					send(rq)
+					finish(rq)
+					rq.step.K = "reserve-newconn"
 				})
 			case "endcircuit":
 				s.GoPrio(st.show(), 1, func() {
@@ -228,11 +253,14 @@ func c11sBody(sc c11sScn) func(x *vs.Exec) {
 		}
 		s.SetInvariant(nil)
 		var obs [4]*c11Obs
-		relayClosed, disc := false, map[int]bool{}
+		relayClosed, disc, reconnected := false, map[int]bool{}, map[int]bool{}
 		for _, st := range sc.Race {
 			relayClosed = relayClosed || st.K == "closerelay"
-			if st.K == "disconnect" {
+			if st.K == "disconnect" || st.K == "disconnect-first" {
 				disc[st.C] = true
+			}
+			if st.K == "reserve-newconn" {
+				reconnected[st.C] = true
 			}
 		}
 		if ok && x.VioKey == "" {
@@ -246,8 +274,8 @@ func c11sBody(sc c11sScn) func(x *vs.Exec) {
 				}
 				synctest.Wait()
 				obs[1] = sy.observe()
-				for c := range cfg.Clients {
-					sy.conns[c][0].Close()
+				for _, c := range sy.net.Conns() {
+					c.Close()
 				}
 				synctest.Wait()
 				obs[2] = sy.observe()
@@ -291,7 +319,7 @@ func c11sBody(sc c11sScn) func(x *vs.Exec) {
 			}
 			endsInRace := false
 			for _, st := range sc.Race {
-				endsInRace = endsInRace || st.K == "endcircuit" || st.K == "disconnect" || st.K == "closerelay"
+				endsInRace = endsInRace || st.K == "endcircuit" || st.K == "disconnect" || st.K == "disconnect-first" || st.K == "closerelay"
 			}
 			if !endsInRace {
 				// nothing ended during the race: every OK circuit was open at the same time as the others
@@ -333,6 +361,18 @@ func c11sBody(sc c11sScn) func(x *vs.Exec) {
 					}
 					if o.Conns[lbl(c)] == 0 && c11TagIn(o.Tags[lbl(c)], relayHopTag) {
 						x.Fail("hop-tag-without-circuit", "%s: %s is in no circuit but carries the hop tag: tags %s", stage, lbl(c), o.Tags[lbl(c)])
+					}
+				}
+			}
+			for _, rq := range reqs {
+				if rq.step.K == "reserve-newconn" {
+					_, has := obs[0].Rsvp[lbl(rq.step.C)]
+					out = append(out, fmt.Sprintf("reservation-after-race=%v", has))
+				}
+				if rq.step.K == "reserve-newconn" && rq.rep.Got && rq.rep.Status == pbv2.Status_OK && rq.conn2 != nil && !relayClosed { // (nothing closes the new connection before the epilogue)
+					if _, has := obs[0].Rsvp[lbl(rq.step.C)]; !has {
+						x.Fail("reservation-lost-while-connected", "%s reserved over a new connection (answered OK) that stays open, nothing expired, and the relay holds no reservation for it: rsvp{%s} tags %s (%v)",
+							lbl(rq.step.C), c11SortedMap(obs[0].Rsvp), obs[0].Tags[lbl(rq.step.C)], out)
 					}
 				}
 			}
@@ -401,6 +441,8 @@ func c11sScenarios(thorough bool) []c11sScn {
 			Race: []c11sStep{res(0), dis(0)}},
 		{Name: "RESERVE racing Relay.Close", MaxRes: 3, MaxCircuits: 1, PerIP: 1,
 			Race: []c11sStep{res(0), {K: "closerelay"}}},
+		{Name: "the peer's old connection closes while it reserves over a new one", MaxRes: 3, MaxCircuits: 1, PerIP: 1,
+			Pre: []c11sStep{res(0)}, Race: []c11sStep{{K: "disconnect-first", C: 0}, {K: "reserve-newconn", C: 0}}},
 		{Name: "CONNECT racing the destination's disconnect", MaxRes: 3, MaxCircuits: 1, PerIP: 1,
 			Pre: []c11sStep{res(2)}, Race: []c11sStep{con(0, 2), dis(2)}},
 		{Name: "CONNECT racing the source's disconnect", MaxRes: 3, MaxCircuits: 1, PerIP: 1,
